@@ -1,4 +1,5 @@
 pub mod core;
+pub mod cw1w;
 pub mod cw20w;
 pub mod direct;
 pub mod monitor;
